@@ -517,6 +517,39 @@ func (c *sroaCtx) sroaFunc(fd *ast.FuncDecl) int {
 		}
 		return true
 	})
+	// third pass: a field local that is defined by `:=` (also in an if/for/switch init, where no blank use can be
+	// inserted) and never read would not compile ("declared and not used"): define `_` instead
+	occ := map[string]int{}
+	ast.Inspect(fd.Body, func(n ast.Node) bool {
+		if id, ok := n.(*ast.Ident); ok && strings.HasPrefix(id.Name, "vtS_") {
+			occ[id.Name]++
+		}
+		return true
+	})
+	ast.Inspect(fd.Body, func(n ast.Node) bool {
+		as, ok := n.(*ast.AssignStmt)
+		if !ok || as.Tok != token.DEFINE {
+			return true
+		}
+		newVars := 0
+		for i, l := range as.Lhs {
+			id, isID := l.(*ast.Ident)
+			if !isID {
+				continue
+			}
+			if strings.HasPrefix(id.Name, "vtS_") && occ[id.Name] == 1 {
+				as.Lhs[i] = ast.NewIdent("_")
+				continue
+			}
+			if id.Name != "_" {
+				newVars++
+			}
+		}
+		if newVars == 0 {
+			as.Tok = token.ASSIGN
+		}
+		return true
+	})
 	return len(c.cand)
 }
 
